@@ -3097,10 +3097,19 @@ where
                     }
 
                     let (vertex_key, hint) = result;
-                    if let Some(index) = index.as_deref_mut()
-                        && let Some(vertex) = self.tds.get_vertex_by_key(vertex_key)
-                    {
-                        index.insert_vertex(vertex_key, vertex.point().coords());
+                    if let Some(index) = index.as_deref_mut() {
+                        if tds_snapshot.number_of_cells() == 0 && self.tds.number_of_cells() > 0 {
+                            // This insertion built the initial simplex, which replaces the whole
+                            // Tds and with it every vertex key: keys filed in the index before
+                            // (bootstrap vertices, or survivors of earlier removals) no longer
+                            // name the vertices at those coordinates. Re-file all vertices.
+                            index.clear();
+                            for (key, vertex) in self.tds.vertices() {
+                                index.insert_vertex(key, vertex.point().coords());
+                            }
+                        } else if let Some(vertex) = self.tds.get_vertex_by_key(vertex_key) {
+                            index.insert_vertex(vertex_key, vertex.point().coords());
+                        }
                     }
 
                     return Ok((InsertionOutcome::Inserted { vertex_key, hint }, stats));
